@@ -184,11 +184,16 @@ func ListenAddr(addr string, tlsConf *tls.Config, config *Config) (*Listener, er
 	if err != nil {
 		return nil, err
 	}
-	return (&Transport{
+	ln, err := (&Transport{
 		Conn:        conn,
 		createdConn: true,
 		isSingleUse: true,
 	}).Listen(tlsConf, config)
+	if err != nil {
+		conn.Close()
+		return nil, err
+	}
+	return ln, nil
 }
 
 // ListenAddrEarly works like [ListenAddr], but it returns connections before the handshake completes.
@@ -197,11 +202,16 @@ func ListenAddrEarly(addr string, tlsConf *tls.Config, config *Config) (*EarlyLi
 	if err != nil {
 		return nil, err
 	}
-	return (&Transport{
+	ln, err := (&Transport{
 		Conn:        conn,
 		createdConn: true,
 		isSingleUse: true,
 	}).ListenEarly(tlsConf, config)
+	if err != nil {
+		conn.Close()
+		return nil, err
+	}
+	return ln, nil
 }
 
 func listenUDP(addr string) (*net.UDPConn, error) {
